@@ -74,8 +74,13 @@ func (g *qgen) sameArrayLeaves(n int) []Query {
 	groups := [][]string{{"x", "y"}, {"u", "v"}, {"z", "w"}, {"x", "y", "u", "v"}}
 	fs := groups[g.rng.Intn(len(groups))]
 	out := make([]Query, n)
+	wrap := g.rng.Intn(3) == 0
 	for i := range out {
 		out[i] = Query{Op: "term", F: fs[g.rng.Intn(len(fs))], V: 1 + g.rng.Intn(g.nterms)}
+		if wrap {
+			// the leaf wrapped in a one-armed disjunction (what a query builder emits): same meaning
+			out[i] = Query{Op: "disj", Qs: []Query{out[i]}, Min: g.rng.Intn(2)}
+		}
 	}
 	return out
 }
